@@ -37,7 +37,7 @@ type Cfg struct {
 
 // Step is one action of a script.
 type Step struct {
-	Op    string   `json:"op"` // "in", "raw", "burst", "send", "logout", "stop", "advance", "handlerstop"
+	Op    string   `json:"op"` // "in", "raw", "burst", "send", "logout", "stop", "advance", "handlerstop", "connclosed"
 	Raw   []byte   `json:"raw,omitempty"` // "raw": bytes handed to ServeIncoming as they are
 	In    *InMsg   `json:"in,omitempty"`
 	Burst []*InMsg `json:"burst,omitempty"`
@@ -405,6 +405,14 @@ func runDirect(cfg Cfg, steps []Step, hooks *Hooks, maxHB int, tr *Trace) {
 			}
 		case "handlerstop":
 			r.h.Stop()
+		case "connclosed":
+			// what Acceptor.serve / Initiator.Serve do when the connection's reader ends
+			r.mu.Lock()
+			ended := r.runEnded
+			r.mu.Unlock()
+			if !ended {
+				r.h.StopWithError(simplefixgo.ErrConnClosed)
+			}
 		case "advance":
 			time.Sleep(time.Duration(st.Dt))
 		}
